@@ -1290,9 +1290,13 @@ def c14(ctx):
         for pos, names in enumerate((("a_bad.go", "b_good.go", "c_good.go"), ("a_good.go", "m_bad.go", "z_good.go"), ("a_good.go", "b_good.go", "z_bad.go"))):
             files = {nm: (ms if "bad" in nm else good.replace("ok()", f"ok{j}()")) for j, nm in enumerate(names)}
             scen.append(Scenario(f"misfit{k}_{pos}", [mp], files, "rejected rewrite next to good files"))
-    for pos, names in enumerate((("a_bad.go", "b_good.go"), ("a_good.go", "z_bad.go"))):
-        files = {nm: (REPLACE_ERR[1] if "bad" in nm else "package a\n\nfunc ok() { foo(1) }\n") for nm in names}
-        scen.append(Scenario(f"rerr_{pos}", [REPLACE_ERR[0].replace("+bar.x", "+bar.x")], files, "rewrite error next to good files"))
+    for pos, names in enumerate((("a_bad.go", "b_good.go"), ("a_good.go", "z_bad.go"), ("a_bad.go", "b_good.go", "c_bad.go", "d_good.go"))):
+        # the same change cannot be generated in one file (x stands for a call) and can in the next (x stands for a name)
+        files = {nm: (REPLACE_ERR[1] if "bad" in nm else f"package a\n\nfunc ok{j}() {{ foo(name{j}) }}\n") for j, nm in enumerate(names)}
+        scen.append(Scenario(f"rerr_{pos}", [REPLACE_ERR[0]], files, "rewrite error in one file, the same change succeeds in the next"))
+        files2 = {nm: ("package a\n\nfunc f() {\n\tcall(obj, mk())\n}\n" if "bad" in nm else f"package a\n\nfunc g{j}() {{\n\tcall(obj, Name{j})\n}}\n") for j, nm in enumerate(names)}
+        scen.append(Scenario(f"rerr2_{pos}", ["@@\nvar recv, name expression\n@@\n-call(recv, name)\n+recv.name()\n"], files2,
+                             "site-dependent rewrite error before a file where the change applies"))
     optsets = [["print"], ["diff"], [], ["print", "sg"], ["si"], ["print", "si"]]
     def one(sc):
         out = []
